@@ -316,7 +316,47 @@ func classify(m *propMeta, pr *procResult) (class, key string) {
 	case strings.Contains(pr.Stderr, "fatal error:"):
 		return strings.ToLower(prop) + "/crash", "fatal-error"
 	}
+	if prop == "C14" {
+		// safety net: a panic that left a decoder entry point (or a decoder constructor) through a path the
+		// worker does not guard is still "the decoder crashed", not harness trouble
+		if f := escapedDecoderPanic(pr.Stderr); f != "" {
+			return "c14/panic", f
+		}
+	}
 	return "harness", ""
+}
+
+// escapedDecoderPanic returns the innermost library function of the panicking goroutine when the frames
+// between the panic and the first harness frame are library frames that include a decoder entry point.
+func escapedDecoderPanic(stderr string) string {
+	i := strings.Index(stderr, "panic:")
+	j := strings.Index(stderr, "[running]:")
+	if i < 0 || j < 0 {
+		return ""
+	}
+	inner, decoder := "", false
+	for _, line := range strings.Split(stderr[j:], "\n") {
+		line = strings.TrimSpace(line)
+		if strings.HasPrefix(line, "verif/sim.") || line == "" {
+			break
+		}
+		if strings.HasPrefix(line, "github.com/vogo/gohessian.") {
+			f := strings.TrimPrefix(line, "github.com/vogo/gohessian.")
+			if k := strings.LastIndex(f, "("); k > 0 {
+				f = f[:k]
+			}
+			if inner == "" {
+				inner = strings.NewReplacer("(*", "", ")", "").Replace(f)
+			}
+			if strings.HasPrefix(f, "(*Decoder).") || f == "NewDecoder" || f == "NewSerializer" || f == "ToObject" || strings.HasPrefix(f, "(*goHessian).") {
+				decoder = true
+			}
+		}
+	}
+	if decoder {
+		return inner
+	}
+	return ""
 }
 
 // raceKey extracts the first gohessian frame pair of a race report.
